@@ -27,8 +27,10 @@ Step ==
         /\ (Tr!Finish \/ UNCHANGED <<registered, conn, listening, inst, gen, explicit>>)
         /\ inst' = Ev.live
         /\ Ev.running <= inst'
-TSpec == TInit /\ [][Step]_vars
 Inv == Tr!NeverTwice /\ Tr!RemovedMeansCancelled /\ (Traces[tid][1].restart = 1 => Tr!NotRunningWhileDisconnected)
+\* the invariants are part of the step: a trace leading to a violating state is rejected (and reported), TLC does not abort
+TStep == Step /\ Inv'
+TSpec == TInit /\ [][TStep]_vars
 Mark == /\ TLCSet(2, [TLCGet(2) EXCEPT ![tid] = IF @ < l THEN l ELSE @])
         /\ (l = Len(Traces[tid]) + 1 => TLCSet(1, TLCGet(1) \cup {tid}))
 Post == LET bad == (1..Len(Traces)) \ TLCGet(1) IN PrintT(<<"RESULT", Len(Traces), {<<t, TLCGet(2)[t]>> : t \in bad}>>)
